@@ -248,6 +248,60 @@ def entriesOf (t : ClassTab) : List (Entry String) :=
         | .nonEmpty g => some g
         | .flag g => some g }
 
+/-! ## Serialize / Deserialize: order of pushes and pops -/
+
+section
+/-- one push of `Serialize` / one pop of `Deserialize`, in program order. kind: "i" ints, "d" doubles, "w" a dictionary word
+(travels in ints), "nest" a sub-object's own Serialize/Deserialize, "loop[" / "]" brackets of a counted loop -/
+structure SerOp where
+  kind : String
+  target : String
+  deriving DecidableEq, Repr
+
+structure SerTab where
+  name : String
+  ser : List SerOp
+  deser : List SerOp
+  deriving Repr
+
+/-- `Deserialize` pops exactly what `Serialize` pushed, in the same order, into the same members -/
+def serSymmetric (t : SerTab) : Bool := t.ser == t.deser
+
+/-- every nested push/pop refers to a member, and brackets are balanced -/
+def bracketsBalanced : List SerOp → Nat → Bool
+  | [], d => d == 0
+  | o :: os, d => if o.kind == "loop[" then bracketsBalanced os (d + 1)
+                  else if o.kind == "]" then (d != 0 && bracketsBalanced os (d - 1))
+                  else bracketsBalanced os d
+
+inductive SKind | int | dbl
+  deriving DecidableEq, Repr
+
+/-- bracket-free programs: a record of scalars written to two streams -/
+structure FOp (F : Type) where
+  kind : SKind
+  field : F
+  deriving DecidableEq, Repr
+
+variable {F V : Type} [DecidableEq F]
+
+def serFlat (ops : List (FOp F)) (r : F → V) : List V × List V :=
+  (ops.filterMap fun o => if o.kind = .int then some (r o.field) else none,
+   ops.filterMap fun o => if o.kind = .dbl then some (r o.field) else none)
+
+def deserFlat : List (FOp F) → List V × List V → (F → V) → (F → V)
+  | [], _, acc => acc
+  | o :: os, (is, ds), acc =>
+    match o.kind with
+    | .int => match is with
+      | v :: is' => deserFlat os (is', ds) (fun x => if x = o.field then v else acc x)
+      | [] => acc
+    | .dbl => match ds with
+      | v :: ds' => deserFlat os (is, ds') (fun x => if x = o.field then v else acc x)
+      | [] => acc
+
+end
+
 /-! ## `cxxNameDouble::merge_redox`: how `cxxSolution::read_raw` files the lines of a `-totals` block -/
 
 section
